@@ -10,9 +10,9 @@ import (
 
 func init() {
 	register(&Prop{
-		ID:    "C13",
-		Title: "Primary keys identify items faithfully and are enforced",
-		Decided: "(R1) the function that renders a composite key must use an injective encoding (per-component quoting/escaping of the separator, a length prefix, or %q): joining raw renderings with a constant separator that can occur inside a component is recognised as the non-injective idiom; (R2) at every call site of keySchema.GetKey the error result is extracted and tested (the only accepted discard is the sparse-index case inside GetKey itself); (R3) in the key-attribute accessors the case for type label X returns field X of the attribute and tests presence of that same field, and a value is produced only on the present∧typed edges; (R4) UpdateItem re-derives the key of the updated item before committing and rejects a change; (R5) GetItem/Delete/Update address Table.Data with the key derived from the request's Key by the table's own schema (shared with C01.R3).",
+		ID:         "C13",
+		Title:      "Primary keys identify items faithfully and are enforced",
+		Decided:    "(R1) the function that renders a composite key must use an injective encoding (per-component quoting/escaping of the separator, a length prefix, or %q): joining raw renderings with a constant separator that can occur inside a component is recognised as the non-injective idiom; (R2) at every call site of keySchema.GetKey the error result is extracted and tested (the only accepted discard is the sparse-index case inside GetKey itself); (R3) in the key-attribute accessors the case for type label X returns field X of the attribute and tests presence of that same field, and a value is produced only on the present∧typed edges; (R4) UpdateItem re-derives the key of the updated item before committing and rejects a change; (R5) GetItem/Delete/Update address Table.Data with the key derived from the request's Key by the table's own schema (shared with C01.R3).",
 		NotDecided: "that the rendering of each single component is itself injective per type (%v of a string, of a number literal: see C12 for numerals); attribute types that DynamoDB does not allow as keys.",
 		Rules: []RuleDef{
 			{ID: "R1", Desc: "composite key encoding is injective (idiom rule on the key-rendering function)", Run: c13R1},
